@@ -143,8 +143,11 @@ def build_source(cfg):
   else:
     raise ValueError(kind)
   cur = root
-  for (i, k) in cfg.get('path') or ():
-    cur = cur.shard(i, k)
+  for step in cfg.get('path') or ():
+    # [i, k] or [i, k, offset]: the offset is a resumed position inside that level
+    # (what from_state passes); [0, 1, K] is an unsharded source restored after K
+    # elements, sharded further afterwards
+    cur = cur.shard(*step)
   return root, cur
 
 
@@ -167,8 +170,8 @@ def model_positions(cfg, make_shard=None):
     for (i, k) in path:
       idxs = idxs[i::k]
     return idxs
-  for (i, k) in path:
-    idxs = _contiguous(idxs, i, k)
+  for step in path:
+    idxs = _contiguous(idxs, *step)
   return idxs
 
 
